@@ -105,6 +105,33 @@ class K:
     def last2(self, xs: List[int]) -> int:
         h, w = xs[-2:]
         return h * 10 + w
+
+    def find(self, xs: List[int], v: int) -> int:
+        k = 0
+        for x in xs:
+            if x == v:
+                return k
+            k += 1
+        return -1
+
+    def dotrev(self, xs: List[int], ys: List[int]) -> int:
+        acc = 0
+        for a, b in zip(xs, ys):
+            acc = acc + a * b
+        n = len(xs)
+        last = first = 0
+        for t in reversed(range(n)):
+            last = first = xs[t] - first
+        lo, hi = min(acc, last), max(acc, last)
+        return hi * 1000 + lo + first
+
+    def firstneg(self, xs: List[int]) -> int:
+        i = 0
+        while i < len(xs):
+            if xs[i] < 0:
+                return i
+            i += 1
+        raise ValueError("none")
 '''
 
 LZ = ("list", "Z")
@@ -119,6 +146,9 @@ SPECS = [
     FnSpec(cls="K", name="slices", coq="k_slices", returns=LZ),
     FnSpec(cls="K", name="early", coq="k_early", returns="Z"),
     FnSpec(cls="K", name="last2", coq="k_last2", returns="Z"),
+    FnSpec(cls="K", name="find", coq="k_find", returns="Z"),
+    FnSpec(cls="K", name="dotrev", coq="k_dotrev", returns="Z"),
+    FnSpec(cls="K", name="firstneg", coq="k_firstneg", returns="Z", fuel=True),
 ]
 
 INTS = [-7, -3, -1, 0, 1, 2, 3, 5, 8]
@@ -143,6 +173,12 @@ def inputs(name):
     if name == "early":
         return [(a, b) for a in INTS for b in INTS]
     if name == "last2":
+        return [(list(l),) for l in LISTS]
+    if name == "find":
+        return [(list(l), v) for l in LISTS for v in (-2, 2, 9, 60, 4)]
+    if name == "dotrev":
+        return [(list(a), list(b)) for a in LISTS for b in LISTS]
+    if name == "firstneg":
         return [(list(l),) for l in LISTS]
     raise KeyError(name)
 
